@@ -40,7 +40,7 @@ func omitEmpty(data any, p tree.Path) any {
 		}
 		return v
 	case []any:
-		var c []any
+		c := make([]any, 0, len(v)) // (not a nil slice: an empty list stays a list for the next file's validation)
 		for _, e := range v {
 			if isEmpty(e) && mustOmit(p) {
 				continue
